@@ -519,7 +519,8 @@ FULL_KINDS = ("corpus", "syncml-data", "embedded", "embedded-deep", "binary", "b
 
 def conv_cases(seed, quick):
     """(kind, document, (version, keep_ws, use_strtbl, anonymous)): the streams of cases() x option tuples —
-    thorough: all 32 tuples for the corpus and the constructed streams, 4 sampled tuples for the bulk streams;
+    thorough: all 32 tuples for the corpus and the constructed streams (documents up to 20 KB; the model's string table
+    and text merge are quadratic), 4 sampled tuples for the bulk streams and the big documents;
     quick: 2 sampled tuples per document (every tuple is used about 1/16 of the time)"""
     rng = common.Rng(seed, 7201)
     out = []
@@ -528,7 +529,7 @@ def conv_cases(seed, quick):
             continue
         if quick:
             ts = [rng.choice(OPTION_TUPLES) for _ in range(2)]
-        elif k in FULL_KINDS:
+        elif k in FULL_KINDS and len(d) <= 20000 and k != "wide":
             ts = OPTION_TUPLES
         else:
             ts = [rng.choice(OPTION_TUPLES) for _ in range(4)]
